@@ -30,6 +30,7 @@ class World:
         self.state_script = {}
         self.prop_script = {}
         self.act_ops = {}       # (k, agent_id) -> [population ops] applied at the END of that agent's act
+        self.hook_sends = {}    # (k, "begin"|"end") -> [send dicts | broadcast dicts] performed by the model inside the round hook
         self.calls = []
         self.handled = []
         self.sent = []
@@ -147,12 +148,28 @@ class ScriptModel(Model):
         w.calls.append(("begin", time, sim_round, step))
         for op in w.hook_ops.get((w.k, "begin"), ()):
             w.apply_op(self, op)
+        self._hook_sends("begin")
+
+    def _hook_sends(self, where):
+        w = self.world
+        for s in w.hook_sends.get((w.k, where), ()):
+            if "broadcast" in s:
+                def factory(agent_id, s=s):
+                    data = {"uid": s["uid_base"] * 1000 + agent_id}
+                    w.sent.append((w.k, data["uid"], agent_id, s.get("delay")))
+                    if s.get("delay") is None:
+                        return Event(s.get("name", "ping"), 0, agent_id, data=data)
+                    return DelayedEvent(s.get("name", "ping"), 0, agent_id, s["delay"], data=data)
+                self.broadcast_event(s["broadcast"], factory)
+            else:
+                send(self, w, s, 0)
 
     def end_round(self, time, sim_round, step):
         w = self.world
         w.calls.append(("end", time, sim_round, step))
         for op in w.hook_ops.get((w.k, "end"), ()):
             w.apply_op(self, op)
+        self._hook_sends("end")
         snap = []
         for a in self.agents:
             props = {n: p["value"] for n, p in a.properties.items() if p["type"] in ("Integer", "Double")}
